@@ -635,9 +635,16 @@ fn derive_func_op_shape(def: &FuncOpDef, symbol_table: &mut BTreeMap<Rc<str>, Sh
                 Shape::Func(fdef) => {
                     // The callback's own parameter names must not reach the
                     // caller's symbol table through its return shape.
-                    let narrowed = acc_shape.narrow(&returned_shape(fdef, pos), symbol_table);
+                    let ret_shape = returned_shape(fdef, pos);
+                    let narrowed = acc_shape.narrow(&ret_shape, symbol_table);
                     match narrowed {
-                        Shape::TypeErr(_, _) => acc_shape,
+                        // The result is the accumulator for an empty target
+                        // and what the function returns otherwise. When the
+                        // two do not narrow to one shape it can be either.
+                        Shape::TypeErr(_, _) => Shape::Narrowed(NarrowedShape::new_with_pos(
+                            vec![acc_shape, ret_shape],
+                            pos.clone(),
+                        )),
                         other => other,
                     }
                 }
